@@ -108,6 +108,7 @@ Proof.
     destruct (end_step_no_atoms s Ht) as [s1 [E1 _]]. destruct (V.C06.Model.end_step s) as [r s2]. injection E1 as -> ->. discriminate E. }
   split; [exact HF|]. intros s' E. unfold step_text in E.
   destruct c; try discriminate Hn; cbn [V.C06.Model.do_call V.C06.Model.lift V.C06.Model.bind] in E.
+  all: try (injection E as <-; cbn; reflexivity). (* CInit: initProgram resets the theory store *)
   all: try (injection E as <-; cbn; exact Ht).
   all: try (injection E as <-; unfold V.C06.Model.begin_step; repeat match goal with |- context [if ?b then _ else _] => destruct b end; cbn; exact Ht).
   - (* CEnd *) destruct (end_step_no_atoms s Ht) as [s1 [E1 H1]]. destruct (V.C06.Model.end_step s) as [r s2]. injection E1 as -> ->. injection E as <-. exact H1.
